@@ -185,6 +185,10 @@ def make():
                 rows.append((f"group-container<{h},{cn}>", h, pn, hty, f"DgContainer<{src}, {ctx}>", f"DgContainer<{tgt}, {ctx}>"))
                 rows.append((f"object-rettmp<{h},{cn}>", h, pn, hty, f"DrBase<'static, {src}, {ctx}>", f"DrBase<'static, {tgt}, {ctx}>"))
                 rows.append((f"group-rettmp<{h},{cn}>", h, pn, hty, f"Dh<'static, {src}, {ctx}>", f"Dh<'static, {tgt}, {ctx}>"))
+    # the PhantomData rule: a marker-only handle converts only through what it is a marker of
+    for (pn, P, _, _) in PAYLOADS:
+        rows.append(("phantom", "phantom", pn, f"PhantomData<{P}>", f"PhantomData<{P}>", "PhantomData<c_void>"))
+        rows.append(("Fwd<phantom>", "phantom", pn, f"PhantomData<{P}>", f"Fwd<PhantomData<{P}>>", "Fwd<PhantomData<c_void>>"))
     wrows = []
     for (pn, P, _, _) in PAYLOADS:
         for (name, std, wr) in [
